@@ -24,8 +24,8 @@ def siblings(run) -> Tuple[FuncInfo, FuncInfo, FuncInfo]:
         if not (isinstance(c.func, ast.Attribute) and isinstance(c.func.value, ast.Name) and c.func.value.id == "self"):
             continue
         for a, p in fa.facts.atoms_at(n):       # atoms: `if not dfs: B else: A` selects the same callees
-            if isinstance(a, ast.Name):
-                pairs.setdefault(a.id, {})[bool(p)] = (n, c)
+            # the selector is a local flag or (when written inline) the expression itself
+            pairs.setdefault(unparse(a), {})[bool(p)] = (n, c)
     for var, d in pairs.items():
         if True in d and False in d:
             t = ci.resolve(pd, d[True][1])
